@@ -134,6 +134,7 @@ CHECKS = {
     },
     "C15": {
         "test": "TestC15",
+        "race_tier": {"test": "TestC15Free", "race": True, "budget": {"quick": 6, "thorough": 120}},
         "level": "exploration",
         "budget": {"quick": 40, "thorough": 600},
         "rule": ("each evaluation is a history of Add / Del / ExecuteBatch (duplicate and unsorted keys, adds and deletes) / read over 4 keys and 8 "
@@ -168,7 +169,7 @@ CHECKS = {
                  "tier: 1 in 30 runs compiles 70000-100000 records on real parallelism with the hooks in perturbation mode so that the bulk loader "
                  "splits into several buckets; 1 run in 12 (both tiers) compiles 1500-4000 records in batch mode (batch size 5/20/40, parallelism 0/2/4/8) free-running on four "
                  "real threads, so that many small batches sharing hot keys are in flight and interleavings finer than the yield points are reached. "
-                 "One file in three also holds lines of a single character (a record-type character or not), which every parser setting skips. Non-trivial = more than 3 lines; distinct = schedule hash + file seed."),
+                 "Half of the builder runs on small files override the bulk loader's bucket parameters (minimum bucket size 1-40 items, at most 2-16 buckets, through the verif-only rdb.VerifSetBuckets), so that keys with many values straddle bucket boundaries in files of a few dozen lines. One file in three also holds lines of a single character (a record-type character or not), which every parser setting skips. Non-trivial = more than 3 lines; distinct = schedule hash + file seed."),
         "components": {
             "real": ["dnsdata.ParseStream / parse (scanner, worker pool)", "dnsdata/cdb.CreateCDBFromReader + go-cdb writer", "rdb.Compile: compileBuilder "
                      "(Builder, buckets, SST ingestion) and compileBatches (parallel ExecuteBatch under writeMutex)", "subnet rearranger (Accum.MarshalMap)", "RocksDB (cgo)"],
@@ -179,7 +180,7 @@ CHECKS = {
         },
         "assumptions": ["which blocked parser worker receives a line is the Go runtime's choice: replay is 'same verdict for the same scenario', the oracle is schedule-insensitive",
                         "conflicting duplicate subnets (ill-formed, order dependent) are not generated"],
-        "required_probes": {"quick": ["multi_value_keys", "free_running_big_file", "free_running_parallel_batches"], "thorough": ["multi_value_keys", "free_running_big_file", "free_running_parallel_batches"]},
+        "required_probes": {"quick": ["multi_value_keys", "free_running_big_file", "free_running_parallel_batches", "small_file_in_several_buckets"], "thorough": ["multi_value_keys", "free_running_big_file", "free_running_parallel_batches", "small_file_in_several_buckets"]},
     },
     "C08": {
         "test": "TestC08",
@@ -211,7 +212,7 @@ CHECKS = {
                  "sizes (1..4096, cycled), a source reader with seeded short reads and (fault population) an error at a seeded offset, and the "
                  "per-map range-point producer goroutines scheduled at their chunk sends. The output must contain exactly the lines a whole-buffer run "
                  "produces (nothing lost, duplicated or cut at a buffer boundary), compile (sequential codec, v1/v2 keys) to the same database as the "
-                 "original, be idempotent at database level, report a source error, and terminate. Every generated line is also round-tripped "
+                 "original, be idempotent at database level, report a source error, and terminate. One run in seven goes through Codec.Preprocess(r, w) with a destination that runs full after a seeded number of bytes (the last byte included): Preprocess must report an error. Every generated line is also round-tripped "
                  "through its text normal form: that part is input generation, not simulation, and is labelled so. Non-trivial = more than 3 lines; "
                  "distinct = schedule hash + file seed + buffer sizes."),
         "components": {
@@ -229,7 +230,7 @@ CHECKS = {
         "level": "exploration",
         "budget": {"quick": 40, "thorough": 600},
         "rule": ("each evaluation declares 1-12 candidate addresses (weights 0, 1, 2, 3, 10, 1000, 2^32-1; untagged and two locations; both families) plus "
-                 "0-5 addresses for the NS/MX target, compiles them to a real CDB and lets 1-4 client tasks query concurrently (max answer 1..8 through "
+                 "0-5 addresses for the NS/MX target, compiles them to a real CDB (3 runs in 4) or RocksDB with v1 / v2 keys (the answer code differs per storage layout) and lets 1-4 client tasks query concurrently (max answer 1..8 through "
                  "the request context) with the package's random source seeded from the scenario, so a run is repeatable. Every response is checked: "
                  "count = min(max, visible positive-weight candidates), no repetition, only declared visible candidates, weight 0 never served while the "
                  "name still exists, at most one glue address per family. One run in ten adds 20000 draws with max answer 1 and a chi-square test "
@@ -242,8 +243,8 @@ CHECKS = {
             "not_run": ["fbserver.maxAnswerHandler (C20 covers the handler chain)"],
         },
         "assumptions": ["chi-square cells with an expectation below 5 are merged with their neighbour; the threshold p < 1e-9 keeps the false-alarm probability negligible over all runs"],
-        "required_probes": {"quick": ["weight_zero_candidate_visible", "more_candidates_than_slots", "glue_checked", "proportionality_tested"],
-                            "thorough": ["weight_zero_candidate_visible", "more_candidates_than_slots", "glue_checked", "proportionality_tested"]},
+        "required_probes": {"quick": ["weight_zero_candidate_visible", "more_candidates_than_slots", "glue_checked", "proportionality_tested", "rocksdb_backend"],
+                            "thorough": ["weight_zero_candidate_visible", "more_candidates_than_slots", "glue_checked", "proportionality_tested", "rocksdb_backend"]},
     },
     "C14": {
         "test": "TestC14",
